@@ -16,6 +16,7 @@ type writeAPI interface {
 }
 
 type readAPI interface {
+	Reverse(method, host, path string) (*fox.Route, bool)
 	Has(method, pattern string) bool
 	Route(method, pattern string) *fox.Route
 	Len() int
@@ -178,6 +179,7 @@ func checkObsOpt(rd readAPI, m *refMap, probes []mentry, who string, withIter bo
 			sym.Assert(rd.Route(p.method, p.pattern) == nil, who+": Route() nil for an unregistered key")
 		}
 	}
+	checkRouting(rd, m, probes, who, withIter)
 	if !withIter {
 		return
 	}
@@ -317,7 +319,7 @@ func HarnessC02History(st any) {
 			checkObs(s.r, model, probes, "router")
 		} else {
 			// iter=0: no iterator on the open transaction between steps (keeps its writable-node cache alive)
-			checkObsOpt(txn, model, probes, "txn", sym.Param("iter") == 1)
+			checkObsOpt(txn, model, probes, "txn", sym.ParamOr("iter", 1) == 1)
 			checkObs(s.r, pre, probes, "router during txn")
 		}
 	}
@@ -331,5 +333,48 @@ func HarnessC02History(st any) {
 	case 2:
 		txn.Abort()
 		checkObs(s.r, pre, probes, "router after abort")
+	}
+}
+
+// checkRouting: requests are routed according to the reader's own state (its uncommitted writes included):
+// every path-only, wildcard-free registered pattern and every such probe, used as a request path, is answered
+// as the reference matcher over the model's routes says - by Reverse and, when allowed, by Iter().Reverse.
+func checkRouting(rd readAPI, m *refMap, probes []mentry, who string, withIter bool) {
+	if sym.ParamOr("symlen", 0) != 0 {
+		return // symbolic patterns in the model: the reference trie needs concrete patterns
+	}
+	var set RouteSet
+	for _, e := range m.ents {
+		set.Routes = append(set.Routes, R{e.method, e.pattern})
+	}
+	ref := newRefRouter(set)
+	var cands []mentry
+	cands = append(cands, m.ents...)
+	cands = append(cands, probes...)
+	for _, c := range cands {
+		if c.method == "" || len(c.pattern) == 0 || c.pattern[0] != '/' || hasWildcard(c.pattern) || hasEmptySegment(c.pattern) {
+			continue
+		}
+		want := ref.lookup(c.method, "", c.pattern, true)
+		if want.ambiguous {
+			continue
+		}
+		got, tsr := rd.Reverse(c.method, "", c.pattern)
+		if want.route == nil {
+			sym.Assert(got == nil, who+": Reverse finds no route where the reader's own state has none")
+			continue
+		}
+		sym.Assert(got != nil && got.Pattern() == want.route.pattern && tsr == want.tsr, who+": Reverse routes by the reader's own state")
+		if withIter {
+			n := 0
+			var via *fox.Route
+			for _, r := range rd.Iter().Reverse(seqOf(c.method), "", c.pattern) {
+				via = r
+				n++
+			}
+			if !want.tsr {
+				sym.Assert(n == 1 && via != nil && via.Pattern() == want.route.pattern, who+": Iter().Reverse routes by the state the iterator was taken from")
+			}
+		}
 	}
 }
